@@ -298,6 +298,17 @@ func GetMethodT(frame, targetClass, targetMethod string, isPrivate bool) *T {
 	return methodT
 }
 
+// GetOwnMethodT returns the instance method declared for exactly this class
+// (no walk through its parents); nil if it declares none.
+func GetOwnMethodT(frame, targetClass, targetMethod string, isPrivate bool) *T {
+	return TFrame[methodTFrameKey(frame, targetClass, targetMethod, isPrivate)]
+}
+
+// GetOwnClassMethodT is GetOwnMethodT for class methods.
+func GetOwnClassMethodT(frame, targetClass, targetMethod string, isPrivate bool) *T {
+	return TFrame[classMethodTFrameKey(frame, targetClass, targetMethod, isPrivate)]
+}
+
 func GetTopLevelClassMethodT(frame string, class, method string) *T {
 	methodT, ok :=
 		TFrame[classMethodTFrameKey(frame, class, method, false)]
